@@ -12,9 +12,12 @@ from sv import core
 from sv import registry as R
 
 PROPERTY = "C01"
-GEN = ["Frames"]
-PROPS = ["ScoresVerif/Props/C01.lean", "ScoresVerif/Props/C01Arr.lean", "ScoresVerif/Props/C01Frames.lean"]
-DRIVER_DEPS = ["ScoresVerif.Driver.C01"]
+GEN = ["Frames", "Dims"]
+PROPS = ["ScoresVerif/Props/C01.lean", "ScoresVerif/Props/C01Arr.lean", "ScoresVerif/Props/C01Frames.lean",
+         "ScoresVerif/Props/C01Gen.lean"]
+DRIVER_DEPS = ["ScoresVerif.Driver.C01", "ScoresVerif.Driver.C01Gen"]
+AUDIT_FILES = ["ScoresVerif/Lemmas/C01GenBase.lean", "ScoresVerif/Lemmas/C01GenReduce.lean", "ScoresVerif/Lemmas/C01GenPreserveA.lean",
+               "ScoresVerif/Lemmas/C01GenPreserveB.lean", "ScoresVerif/Model/PyDyn.lean", "ScoresVerif/Model/Dims.lean", "ScoresVerif/Lemmas/Arr.lean"]
 LEVEL = "proof"
 TRUSTED = ["xarray .mean(dim=…)/.sum(dim=…) reduce exactly the dims they are given (library behaviour, observed)",
            "per-function call-site facts (which dims are handed to gather_dimensions) are read from the AST and compared by running the functions"]
@@ -27,15 +30,18 @@ MANIFEST = dict(
     level="proof",
     text="Lean theorems (kernel-checked, any universe of names): the model of gather_dimensions equals the property's "
          "resolution rule for every well-formed request (gather_eq_spec), reduce/preserve duality, None = 'all', bare string = "
-         "singleton, both/absent ⇒ error, score-specific dims never in the result, result ⊆ data dims. The model is tied to "
-         "utils.gather_dimensions by exhaustive correspondence over a 3-/4-name universe, and every public score is compared "
+         "singleton, both/absent ⇒ error, score-specific dims never in the result, result ⊆ data dims; and the Lean image of "
+         "utils.gather_dimensions regenerated from the source on every run computes exactly that model (gen_eq_model, gen_eq_spec). "
+         "The model is also tied to utils.gather_dimensions by exhaustive correspondence over a 3-/4-name universe, and every public score is compared "
          "against the rule (result dims, duality, None='all', string, error class) and, for mean-type scores, against the "
          "Lean NaN-skipping mean of its own preserve_dims='all' output, on every subset R and spelling.",
-    note="Trusted: Lean kernel + std axioms; hand model of gather_dimensions (tied by exhaustive differential test, not by "
-         "translation); harness; xarray's reduction semantics. Which dims each score hands to gather_dimensions is read from "
+    note="Trusted: Lean kernel + std axioms; the statement translator tools/py2lean_stmt.py and the dynamic-value prelude "
+         "Model/PyDyn.lean (gather_dimensions is regenerated from its AST on every run as a Lean do-block, theorem gen_eq_model: "
+         "regenerated code = hand model for every universe of names and every spelling; the regenerated code is also run against "
+         "the real function on the exhaustive configuration set); harness; xarray's reduction semantics. Which dims each score hands to gather_dimensions is read from "
          "the AST (weights_dims passed or not) and otherwise observed. Known finding F9 (mse/mae/rmse with a weights-only "
          "dimension: None != 'all').",
-    technique="Lean 4 theorems about a hand model of the resolution rule + exhaustive differential correspondence + relational checks over a function registry",
+    technique="Lean 4 theorems about gather_dimensions regenerated from its source (statement translator) and about a hand model of the resolution rule + exhaustive differential correspondence + relational checks over a function registry",
     design="6/C01")
 
 F9_FUNCS = ("mse", "mae", "rmse", "brier_score")   # default path is a bare `.mean()` (brier_score calls mse)
@@ -315,10 +321,46 @@ def check_f9(ctx):
                      tags={"function": name, "defect": "F9", "weights_extra_dim": True})
 
 
+GEN_ERR = {"ERROR_OVERSPECIFIED_PRESERVE_REDUCE": "ValueError", "ERROR_SPECIFIED_NONPRESENT_PRESERVE_DIMENSION": "ValueError",
+           "ERROR_SPECIFIED_NONPRESENT_REDUCE_DIMENSION": "ValueError"}
+
+
+def check_gather_gen(ctx, batch):
+    """tie T validated: the REGENERATED Lean code of gather_dimensions (Gen/Dims.lean, statement translator) is run on
+    the same configurations as the real function — a translator error shows up here, a source change shows up in the
+    theorems of Props/C01Gen.lean (and here against the rule)."""
+    cfgs = gather_configs(ctx)
+    if not ctx.thorough:
+        cfgs = cfgs[::4]
+    ops = [{"op": "c01.gen_gather", "args": {"fcst": f, "obs": o, "weights": w, "reduce": spec_json(r), "preserve": spec_json(p),
+                                              "specific": spec_json(sp)}} for f, o, w, r, p, sp in cfgs]
+    try:
+        res = core.run_driver("C01Gen", ops)
+    except Exception as ex:   # the regenerated module does not build / run: an obligation, not a violation by itself
+        ctx.fail(batch, "correspondence", "gather_dimensions", "gen-driver", {"error": str(ex)[-400:]}, observed="driver failed",
+                 expected="regenerated code runs", tags={"site": "gather_dimensions"}, theorem="gen_eq_model")
+        return
+    for cfg, m in zip(cfgs, res):
+        f, o, w, r, p, sp = cfg
+        impl = run_gather(*cfg)
+        if "ok" in m:
+            gen = {"ok": sorted(set(m["ok"]))}
+        else:
+            gen = {"err": m["err"].split(":")[0]}
+        desc = {"fcst": f, "obs": o, "weights": w, "reduce": r, "preserve": p, "specific": sp}
+        ctx.case(batch, desc, nontrivial="ok" in impl)
+        same = (("ok" in impl and "ok" in gen and impl["ok"] == gen["ok"]) or
+                ("err" in impl and "err" in gen and impl["err"] == gen["err"]))
+        if not same:
+            ctx.fail(batch, "correspondence", "gather_dimensions", "gen-outcome", desc, observed=impl, expected=gen,
+                     tags={"site": "gather_dimensions"}, theorem="gen_eq_model")
+
+
 def correspondence(ctx):
     for n in R.audit_registry():
         ctx.notes.append("registry: " + n)
     check_gather(ctx, "gather-vs-model", "correspondence", "model")
+    check_gather_gen(ctx, "gather-gen-vs-impl")
 
 
 def oracle(ctx, boost):
